@@ -109,6 +109,7 @@ class Ctx:
         self.inconclusive: list[str] = []
         self.t0 = time.time()
         self.extra: dict = {}
+        self._bufs: dict = {}
 
     # ---- randomness -------------------------------------------------------------------
     def rng(self, *key):
@@ -124,6 +125,23 @@ class Ctx:
         """This shard's share of ``total`` cases."""
         base = total // self.nshards
         return base + (1 if self.shard < total % self.nshards else 0)
+
+    # ---- object-identity reuse -------------------------------------------------------------
+    def buf(self, name, arr):
+        """Return a *persistent* array object (one per name/shape/dtype) holding a copy of ``arr``.
+        Passing these instead of fresh arrays means consecutive calls see the same object identity with
+        different contents, so any hidden cache keyed on id()/identity makes the ordinary oracles fail."""
+        import numpy as np
+
+        arr = np.asarray(arr)
+        key = (name, arr.shape, arr.dtype.str)
+        b = self._bufs.get(key)
+        if b is None:
+            b = np.empty_like(arr)
+            self._bufs[key] = b
+        np.copyto(b, arr)
+        self.counters["persistent_buffer_reuses"] = self.counters.get("persistent_buffer_reuses", 0) + 1
+        return b
 
     # ---- recording --------------------------------------------------------------------
     def count(self, name, k=1):
